@@ -136,6 +136,26 @@ theorem dlc_wakeup_rechecks (s : Sys) (m : Bytes) :
   · intro hst hw
     by_cases h : m.length > s.b.sendMiu <;> simp [step, stepA, Ep.send, Sys.swap, hst, hw, h]
 
+/-- `close()` of an established connection always announces itself: whatever is unsent and whatever is unread,
+the call waits for the DM (`pending`) with nothing but DISC in the send queue and an empty receive queue, and the
+next `dequeue` (any budget >= 0) puts DISC on the wire - the peer is told.  (Repair fixes/C05/0002: before it,
+unread data ended the wait at once and the DISC was dropped.) -/
+theorem dlc_close_sends_disc (s : Sys) (b : Int) (hb : 0 ≤ b) (h1 : s.a.bound = true) (h2 : s.a.closing = false)
+    (h3 : s.a.st = .established) :
+    (step s .A .close).2 = .pending ∧ (step s .A .close).1.a.sq = [.disc] ∧ (step s .A .close).1.a.rq = [] ∧
+    (step s .A .close).1.a.st = .disconnect ∧
+    (step (step s .A .close).1 .A (.deq b)).2 = .pdu (some .disc) ∧
+    (step (step s .A .close).1 .A (.deq b)).1.wab = s.wab ++ [.disc] := by
+  have hc : s.a.close = ({ s.a with st := .disconnect, sq := [.disc], rq := [], closing := true }, .pending) := by
+    unfold Ep.close
+    rw [if_neg (by simp [h1, h2]), if_pos h3]
+  have hd : ({ s.a with st := St.disconnect, sq := [Out.disc], rq := [], closing := true } : Ep).deq b =
+      ({ s.a with st := St.disconnect, sq := [], rq := [], closing := true }, some .disc) := by
+    unfold Ep.deq
+    simp [Out.infoSize]
+    omega
+  simp [step, stepA, hc, hd]
+
 /-- Frame boundaries do not matter: the state after `collect()` (any link MIU, aggregation on or
 off) and after `dispatch()` of a frame is reached by atomic steps, hence satisfies everything above. -/
 theorem dlc_collect_covered (s : Sys) (x : Side) (link : Nat) (agf : Bool) (fuel n : Nat) :
@@ -173,6 +193,9 @@ example : (step (init ⟨3, 3, 3, 2, 3, 3, 2, 3⟩) .A (.send [1, 2, 3, 4])).2 =
 example : (⟨128, 128, 0, 2, 128, 128, 2, 0⟩ : Cfg).ok := by decide
 example : (step (init ⟨128, 128, 0, 2, 128, 128, 2, 0⟩) .A (.send [1])).2 = .exc (.llcp 11) ∧
     (step (init ⟨128, 128, 0, 2, 128, 128, 2, 0⟩) .B (.send [1])).2 = .ok := by decide
+/-- `close()` with an unread message: DISC goes out, the peer ends in CLOSE_WAIT -/
+example : let s := run (init cfg23) [(.B, .send [1]), (.B, .deq 128), (.A, .dlv), (.A, .close), (.A, .deq 128), (.B, .dlv)]
+    s.a.st = .disconnect ∧ s.a.closing = true ∧ s.b.st = .closeWait := by decide
 /-- a woken sender with RW(B)=1 and one unacknowledged I PDU: window still full, nothing happens -/
 example : let s := run (init ⟨128, 128, 1, 1, 128, 128, 1, 1⟩) [(.A, .send [1])]
     s.a.sendSlots = 0 ∧ (step s .A (.send [2])).1 = s := by decide
